@@ -210,9 +210,11 @@ class _OwnEq(object):
 
 
 POOL = [None, 0, 0.0, False, '', 'x', 5, [], [1], DATE,     # setter values, by index
-        _OwnEq('all'), _OwnEq('raise'), _OwnEq('array')]
+        _OwnEq('all'), _OwnEq('raise'), _OwnEq('array'),
+        '02134', '1e3', ' 7 ', '12']                         # text that spells a number is text (a post code keeps its zero)
 VARS = {'va': 53, 'vb': 2, 'v_c': 0.5, 'rate_x': 0, 'flag': True, 'txt': 'q7'}
-CUSTOM = {'ID': '(first)', 'ARGS': '(args)', 'K7': '(const (i 7))', 'BOOM': '(raisexl div0)'}
+CUSTOM = {'ID': '(first)', 'ARGS': '(args)', 'K7': '(const (i 7))', 'BOOM': '(raisexl div0)',
+          'Vat': '(first)', 'net_of': '(args)'}          # host functions registered under names with lower-case letters
 MODELLED = ['SUM', 'IF', 'AND', 'OR', 'NOT', 'ISNUMBER', 'ISBLANK', 'N', 'IFERROR', 'ISTEXT']
 UNMODELLED = ['MAX', 'ABS', 'COUNT']
 _levels = [None]
@@ -386,6 +388,8 @@ def new_parser(log, values=True, host=None):
     p.set_function('ID', lambda *a: a[0] if a else None)
     p.set_function('ARGS', lambda *a: list(a))
     p.set_function('K7', lambda *a: 7)
+    p.set_function('Vat', lambda *a: a[0] if a else None)
+    p.set_function('net_of', lambda *a: list(a))
 
     def boom(*a):
         raise error.DIV_ZERO
@@ -586,7 +590,7 @@ def gen_args(rng, depth, lo=1, hi=3, mode=ANY, pool=None):
 def gen_call(rng, depth, mode=ANY, pool=None):
     r = rng.random()
     if r < 0.40 and mode == ANY:
-        name = rng.choice(['ID', 'ARGS', 'ARGS'])
+        name = rng.choice(['ID', 'ARGS', 'ARGS', 'ID', 'ARGS', 'ARGS', 'Vat', 'net_of'])
     elif r < 0.50:
         name = 'K7'
     elif r < 0.80:
@@ -609,7 +613,7 @@ def gen_call(rng, depth, mode=ANY, pool=None):
     else:
         args = gen_args(rng, depth - 1, 1, 3, ANY, pool)
     r = rng.random()
-    if name in ('ARGS', 'ID') and r < 0.12 and len(args) >= 2:
+    if name in ('ARGS', 'ID', 'net_of') and r < 0.12 and len(args) >= 2:
         k = rng.randrange(0, len(args) - 1)
         args = args[:k + 1] + ['blank'] + args[k + 1:]          # an omitted slot in the middle
         return ('call', name, 'flat', args, [])
@@ -960,7 +964,7 @@ def cases(rng, ctx):
             c['target'] = r[1] + ':' + r[2]
         elif ev == 'var':
             c['target'] = 'vx'
-            c['init'] = rng.choice([None, 1, 2, 3, 4, 5, 6, 7, 8, 9])      # POOL index of the stored value; None = undefined
+            c['init'] = rng.choice([None, 1, 2, 3, 4, 5, 6, 7, 8, 9, 13, 14, 15, 16])      # POOL index of the stored value; None = undefined
         else:
             c['fnkind'] = rng.choice(['custom', 'custom', 'builtin', 'raise'])
             c['init'] = rng.randrange(len(POOL))                            # POOL index of the custom function's return value
@@ -1339,7 +1343,7 @@ def never_aborts(t):
     if k == 'bin':
         return t[1] in ('+', '-', '*', '/') and never_aborts(t[2]) and never_aborts(t[3])
     if k == 'call':
-        if t[1] not in ('SUM', 'ID', 'ARGS', 'K7') or t[2] not in ('flat', 'empty') or t[4]:
+        if t[1] not in ('SUM', 'ID', 'ARGS', 'K7', 'Vat', 'net_of') or t[2] not in ('flat', 'empty') or t[4]:
             return False
         for x in t[3]:
             if x != 'blank' and x[0] == 'range':
